@@ -1626,12 +1626,12 @@ def _g(direction):
 
 
 SUBS = [
-    Sub("roundtrip", _g("fwd"), check_maps, quick=5000, thorough=60000, shards_quick=2, shards_thorough=4),
-    Sub("inverse", _g("inv"), check_maps, quick=5000, thorough=60000, shards_quick=2, shards_thorough=4),
-    Sub("monotone", gen_monotone, check_monotone, quick=2000, thorough=20000, shards_quick=1, shards_thorough=2),
-    Sub("derivative", gen_derivative, check_derivative, quick=2400, thorough=30000, shards_quick=1, shards_thorough=2),
+    Sub("roundtrip", _g("fwd"), check_maps, quick=4000, thorough=60000, shards_quick=2, shards_thorough=4),
+    Sub("inverse", _g("inv"), check_maps, quick=4000, thorough=60000, shards_quick=2, shards_thorough=4),
+    Sub("monotone", gen_monotone, check_monotone, quick=1600, thorough=20000, shards_quick=1, shards_thorough=2),
+    Sub("derivative", gen_derivative, check_derivative, quick=2000, thorough=30000, shards_quick=1, shards_thorough=2),
     Sub("loglik", gen_loglik, check_loglik, quick=1600, thorough=16000, shards_quick=2, shards_thorough=4),
     Sub("fit", gen_fit, check_fit, quick=450, thorough=6000, shards_quick=3, shards_thorough=6, shrink_quick=False),
     Sub("pipe_tools", gen_pipe_tools, check_pipe_tools, quick=1600, thorough=16000, shards_quick=2, shards_thorough=4),
-    Sub("pipe_field", gen_pipe_field, check_pipe_field, quick=1200, thorough=12000, shards_quick=3, shards_thorough=6),
+    Sub("pipe_field", gen_pipe_field, check_pipe_field, quick=1000, thorough=12000, shards_quick=3, shards_thorough=6),
 ]
